@@ -22,9 +22,11 @@ coroutine / a generic awaitable with __await__ only / an asyncio Task, a partial
 __call__ or a __call__ returning a generic awaitable - (`afnobj`: what such an asyncio_fn returns reaches the yield of the
 enclosing function, bare or inside list / tuple / dict, and has to be awaited like a coroutine).
 Third audit (A3, B8): the SEVENTH form of an asyncio_fn - a generator-based coroutine (`@types.coroutine`) - is part of the program
-language (ys tag `gco`, Lean `Ys.gco`: resolve_awaitables rejects the generator object at the yield), and so is the product cell
-pure x method (call [pure, 0, label, 2]; as the ROOT its `.asyncio` does not exist: Lean `Asyncio.observeR true`).  Both are OPEN
-findings, generated in both tiers, modelled as the code is and rejected by the observer (clause equiv / deliveries).
+language (ys tag `gco`, Lean `Ys.gco`), and so is the product cell pure x method (call [pure, 0, label, 2]; Lean
+`Asyncio.observeR true`).  Both were findings (resolve_awaitables rejected the generator object at the yield; `obj.m.asyncio` did
+not exist) and are REPAIRED in /repo (6607af4, fec982c): the model follows the repaired code, both dimensions stay in the plan as
+ordinary cases that must pass, and the observer still rejects the old behaviour (clause equiv / deliveries: a regression is a
+VIOLATION, no signature explains it).
 The Lean model (AsynqModel.Lib.Asyncio) runs the same program (correspondence, per-task form of the logs) and the Lean
 observer `Asyncio.specClauseP` judges the implementation's observations:
   observation-only clauses (`Asyncio.spec`): flag off before / after / on inside, siblings complete, synchronous calls refused
@@ -37,11 +39,11 @@ observer `Asyncio.specClauseP` judges the implementation's observations:
 The observer reads of a log only what the correspondence check compares (per-task sub-logs, first event; never the order of
 events of different tasks): equal views give equal verdicts (C15_spec_respects_correspondence).  It is proved of the model for
 every program that satisfies `Prog.safe` (no handler catches BaseException, or no BaseException-only error is raised) and
-`Prog.plainY` (no container-subclass yield, no async_proxy function returning a non-future, no generator-based asyncio_fn):
-C15_spec_holds_partial, C15_specP_holds_partial, C15_case_spec_holds_partial (root not a pure=True method); for the rest the
-code as it is violates the property: C15_base_handler_counterexample, C15_container_subclass_counterexample,
-C15_proxy_value_counterexample, C15_generator_coroutine_asyncio_fn_counterexample, C15_pure_method_root_counterexample
-(C15_other_future_resolved: the former finding about ErrorFuture / lazy Future, repaired)."""
+`Prog.plainY` (no container-subclass yield, no async_proxy function returning a non-future):
+C15_spec_holds_partial, C15_specP_holds_partial, C15_case_spec_holds_partial (any root, a pure=True method included); for the
+rest the code as it is violates the property: C15_base_handler_counterexample, C15_container_subclass_counterexample,
+C15_proxy_value_counterexample (positive instances after repairs: C15_other_future_resolved,
+C15_generator_coroutine_asyncio_fn_repaired, C15_pure_method_root_repaired)."""
 import hashlib
 import json
 import random
@@ -74,8 +76,8 @@ COUNTEREXAMPLE_THEOREMS = [
     "AsynqModel.Asyncio.C15_base_handler_counterexample",
     "AsynqModel.Asyncio.C15_container_subclass_counterexample",
     "AsynqModel.Asyncio.C15_proxy_value_counterexample",
-    "AsynqModel.Asyncio.C15_generator_coroutine_asyncio_fn_counterexample",
-    "AsynqModel.Asyncio.C15_pure_method_root_counterexample",
+    "AsynqModel.Asyncio.C15_generator_coroutine_asyncio_fn_repaired",
+    "AsynqModel.Asyncio.C15_pure_method_root_repaired",
     "AsynqModel.Asyncio.C15_other_future_resolved",
     "AsynqModel.Asyncio.C15_dedup_sync_refused",
     "AsynqModel.Asyncio.C15_noSync_necessary",
@@ -117,7 +119,7 @@ RULE = ("corpus (24 minimised programs), a fixed family (every call kind x expli
         "it, by the second use; every declaration over a functools.partial / a callable object / a partial of a partial as the "
         "callee of a plain synchronous call, as child and as root - usage flag wrapc -; every declaration with asyncio_fn= written "
         "in 6 forms that are not `async def` as a child under a bare yield, inside list / tuple / dict, one level down, failing "
-        "beside a sibling with a handler that goes on, through asynq.async_call - usage flag afnobj; `family_audit3`: every "
+        "beside a sibling with a handler that goes on, through asynq.async_call - usage flag afnobj; `family_audit3` (ordinary cases since the repairs /repo 6607af4 / fec982c): every "
         "declaration that takes asyncio_fn= with the SEVENTH form - a generator-based coroutine, ys tag gco - as a child under a "
         "bare yield, inside list / tuple / dict beside succeeding and failing siblings, one level down, beside the same "
         "declaration with an `async def` asyncio_fn; the product cell pure x method as the root - 6 bodies, through the "
@@ -153,8 +155,8 @@ TRUSTED = [
     "harness uses the public API, never what the model is given; so do wrapc / afnobj: no theorem speaks about WHAT is "
     "decorated or HOW an asyncio_fn is written - the model has one refusal for every callee and one `await` for every asyncio_fn, "
     "and the two flags are judged by the correspondence with it and by the observer alone; a root whose `.asyncio` attribute "
-    "does not exist - the pure=True method - is observed as a run that ends with that AttributeError and logs nothing: `acall` "
-    "hands the error to the caller inside a coroutine)",
+    "does not exist - the pure=True method before /repo fec982c - is observed as a run that ends with that AttributeError and "
+    "logs nothing: `acall` hands the error to the caller inside a coroutine)",
     "asyncio event loop, contextvars (ensure_future copies the context), CPython generator/with semantics",
 ]
 ASSUMPTIONS = [
@@ -167,9 +169,10 @@ ASSUMPTIONS = [
     "running the asynq scheduler inside the event loop - excluded, resolve_awaitables raises TypeError for it)",
     "hypotheses of the equivalence theorems (each with a machine-checked counterexample): Prog.safe (every handler is `except "
     "Exception`, or no BaseException-only error is raised; sufficient, not a characterisation), Prog.plainY (no yielded "
-    "instance of a subclass of tuple / list / dict, no async_proxy function returning a non-future, no child whose explicit "
-    "asyncio_fn is a generator-based coroutine - an ErrorFuture / a lazy Future made in a yield is inside since /repo f8c8dff), "
-    "for statements about a whole case `pm = false` (the root is not a pure=True METHOD), and for statements about outcomes Prog.noSync or 'the asyncio "
+    "instance of a subclass of tuple / list / dict, no async_proxy function returning a non-future - an ErrorFuture / a lazy "
+    "Future made in a yield is inside since /repo f8c8dff, a child whose explicit asyncio_fn is a generator-based coroutine since "
+    "6607af4; a whole case needs no hypothesis on its root: a pure=True METHOD has .asyncio since fec982c), and for statements "
+    "about outcomes Prog.noSync or 'the asyncio "
     "run logged no synchronous call' (refused by design); programs outside them ARE generated and reported (findings)",
     "Prog.validCalls (= valid_call below + no `pure` callee of a plain synchronous call; NOT a hypothesis of any theorem: the "
     "four statements about refused synchronous calls carried it unused and have dropped it - third audit C - they hold of the "
@@ -200,14 +203,13 @@ ASSUMPTIONS = [
     "asyncio_fns and async_proxy functions bind at the same point in both engines)",
     "the seventh form of an asyncio_fn (generator-based coroutine, tag gco) is generated for CHILDREN only: the root keeps an "
     "`async def` asyncio_fn (awaiting `f.asyncio(1)` directly accepts the generator; asyncio.run / ensure_future of the harness "
-    "refuse it: 'a coroutine was expected'); a gco call site and a pure-method call site are always called directly, never "
-    "through asynq.async_call (asyncio_call's `await fn.asyncio(..)` ACCEPTS the generator, and `fn.asyncio` of a pure method "
-    "handed to it meets the missing attribute of finding pure-method-has-no-asyncio as a child: both seen by hand)",
+    "refuse it: 'a coroutine was expected'); gco and pure-method call sites go through asynq.async_call like every other "
+    "(labels % 5 == 3) since the repairs /repo 6607af4 / fec982c",
     "usage flags wrapc / afnobj: the ROOT call keeps an `async def` asyncio_fn (asyncio.run / ensure_future of the harness want a "
     "coroutine); bound methods and objects with a generator __call__ are not decorated (qcore's DecoratorBase unwraps a bound "
     "method like a classmethod object; `inspect` does not take such an object for a generator function); the flags are inert in "
-    "programs inside the open findings about BaseException handlers and yielded objects - container subclasses, proxy values, "
-    "gco children - (a yielded object that one engine never awaits would leave an eagerly made Task unfinished); NOT generated: a decorated callable object without __name__ whose __repr__ raises (the refusal message formats "
+    "programs inside the open findings about BaseException handlers and yielded objects - container subclasses, proxy values - "
+    "(a yielded object that one engine never awaits would leave an eagerly made Task unfinished); NOT generated: a decorated callable object without __name__ whose __repr__ raises (the refusal message formats "
     "the callee: the exception of __repr__ then replaces the RuntimeError - seen by hand on the unchanged tree, see INTEGRATION.md)",
     "the ROOT function of a case is declared without sync_fn (with one, fn(args) IS sync_fn(args) by definition - comparing "
     "fn.asyncio(args) with it is not what the property states); every other call site may be; a sync_fn= is a faithful "
@@ -237,21 +239,23 @@ AFN_KINDS = ("gen", "meth", "proxy", "plain")
 #                            (futures that are not ConstFutures; Lean: Ys.ofut)
 #           | ["gco", ["task", call, prog]]   the child task of a call site declared with an explicit asyncio_fn= (afn = 1) that is
 #                            written in the SEVENTH form: a generator-based coroutine (`@types.coroutine def g(..): r = yield
-#                            from ...; return r`) - open finding generator-based-asyncio_fn-rejected-at-yield; Lean: Ys.gco
+#                            from ...; return r`) - Lean: Ys.gco; an ordinary child since /repo 6607af4 (former finding
+#                            generator-based-asyncio_fn-rejected-at-yield)
 #   call := [kind, afn(0/1), label] | [kind, afn(0/1), label, var]
 #           var = sfn + 2 * bind: HOW the function of the call site is declared
 #             sfn  = 1: with `sync_fn=f` (kinds gen / meth / plain; never the root call): f logs `sfn` and makes the plain
 #                       synchronous call of the function declared without sync_fn            (Lean: Call.sfn, Ev.sfn)
 #             bind = 1: kind meth as a classmethod, 2: as a staticmethod (access paths that the model does not distinguish)
 #             bind = 1 with kind pure: the pure=True function is a METHOD of a class (the product cell pure x method).  As a
-#                       child / through fn(args) it is what `pure` is; as the ROOT, `obj.m.asyncio` does not exist - open
-#                       finding pure-method-has-no-asyncio (Lean: Asyncio.observeR true; Drv rootPM)
+#                       child / through fn(args) it is what `pure` is; as the ROOT, `obj.m.asyncio` exists since /repo fec982c
+#                       (former finding pure-method-has-no-asyncio; Lean: Asyncio.observeR true = observe; Drv rootPM)
 # ---------------------------------------------------------------------------------------------------
 SFN_KINDS = ("gen", "meth", "plain")
 WRAPC_KINDS = ("gen", "plain", "dedup", "proxy")   # usage flag wrapc: kinds whose decorated callable may be a partial / an object
 AFN_FORMS = 6                                      # usage flag afnobj: ways of writing an asyncio_fn that is not `async def`
 AFN_FORM_GENCORO = 7                               # the seventh form, a generator-based coroutine (`@types.coroutine`): NOT a usage
-                                                   # flag - the library rejects it at a yield, so the model is told (ys tag "gco")
+                                                   # flag but a ys tag ("gco") - the library rejected it at a yield until /repo
+                                                   # 6607af4, so the model was told; kept so that a regression names the tag
 BIND_NAMES = ("", "classmethod", "staticmethod")
 
 
@@ -547,8 +551,9 @@ GEN_DEDUP_SYNC = True
 def gen_case(rng, budget=None, ofut=False, gco=False, pm=False):
     """`ofut`: ErrorFutures / lazy Futures among the leaves (finding non-const-future-yield-rejected-by-asyncio); only `plan`
     asks for them (checks/corecommon.py draws its asyncio-mode family from gen_case(rng) and filters open findings by tag).
-    `gco`: children whose explicit asyncio_fn is a generator-based coroutine (finding generator-based-asyncio_fn-rejected-at-
-    yield); `pm`: pure=True METHODS - children, and (1 case of 2) the root (finding pure-method-has-no-asyncio); `plan` only"""
+    `gco`: children whose explicit asyncio_fn is a generator-based coroutine (former finding generator-based-asyncio_fn-rejected-
+    at-yield, repaired); `pm`: pure=True METHODS - children, and (1 case of 2) the root (former finding pure-method-has-no-asyncio,
+    repaired); `plan` only"""
     budget = budget if budget is not None else rng.choice([1, 2, 3, 4, 6, 8, 10, 14])
     g = Gen(rng, budget, p_exotic=rng.choice([0.0, 0.0, 0.1, 0.3, 0.6]), p_wide=rng.choice([0.0, 0.0, 0.0, 0.05, 0.3]))
     # BaseException-only errors with `except Exception` handlers (both engines let them through to the caller), handlers that
@@ -573,7 +578,7 @@ def gen_case(rng, budget=None, ofut=False, gco=False, pm=False):
         g.p_base = g.p_bh = g.p_sub = g.p_pval = 0.0
         g.p_ofut = rng.choice([0.1, 0.3])
     if gco or pm:
-        # one divergence per program (see `signature`)
+        # ordinary programs (outside the open findings), so that a regression of the two repairs shows under its own clause
         g.p_base = g.p_bh = g.p_sub = g.p_pval = 0.0
         if gco:
             g.p_gco = rng.choice([0.15, 0.4])
@@ -966,7 +971,7 @@ ALL_USAGE_KEYS = tuple(k for k, _ in USAGE_FLAGS) + tuple(k for k, _ in USAGE_FL
 
 
 def in_open_finding(p):
-    return has_base_handler_and_raise(p) or bool(ys_tags(p) & (set(SUB_TAGS) | {"pval", "gco"}))
+    return has_base_handler_and_raise(p) or bool(ys_tags(p) & (set(SUB_TAGS) | {"pval"}))
 
 
 def has_child_afn(p):
@@ -1064,9 +1069,10 @@ def family_audit3():
     """third audit A3 / B8.  (a) the SEVENTH form of an explicit asyncio_fn - a generator-based coroutine (`@types.coroutine`) -
     on every kind of declaration that takes asyncio_fn=: as a child under a bare yield, inside list / tuple / dict beside
     succeeding and failing siblings, one level down, with a handler that goes on, beside the same function reached with an
-    `async def` asyncio_fn (resolve_awaitables rejects the generator object: finding generator-based-asyncio_fn-rejected-at-yield).
-    (b) the product cell pure x method: a pure=True METHOD as the root of every way of running (`obj.m.asyncio` does not exist:
-    finding pure-method-has-no-asyncio), reached through the instance and through the class, and as a child (bare, gathered,
+    `async def` asyncio_fn (resolve_awaitables rejected the generator object until /repo 6607af4: former finding
+    generator-based-asyncio_fn-rejected-at-yield).
+    (b) the product cell pure x method: a pure=True METHOD as the root of every way of running (`obj.m.asyncio` did not exist
+    until /repo fec982c: former finding pure-method-has-no-asyncio), reached through the instance and through the class, and as a child (bare, gathered,
     beside a failure) of a function, of a method and of another pure method.  Kept apart from `family()`, which
     checks/corecommon.py reuses."""
     cases = []
@@ -1433,10 +1439,9 @@ def signature(case, v):
     # the model mirrors the open findings branch for branch, so a case inside one has CORR=ok; a spec failure that comes WITH a
     # correspondence difference is something else and keeps the name of its clause (audit 2, N8)
     if clause in DIVERGENCE_CLAUSES and v.get("corr", "ok") == "ok":
-        c0, p = expand(case)
-        if is_pure_method(c0):
-            # `obj.m.asyncio` of a pure=True method: PureAsyncDecoratorBinder has no `asyncio` (AttributeError, nothing runs)
-            return "pure-method-has-no-asyncio"
+        p = expand(case)[1]
+        # (the former findings pure-method-has-no-asyncio and generator-based-asyncio_fn-rejected-at-yield are repaired in /repo
+        # fec982c / 6607af4 and have no signature any more: their old behaviour is reported under its clause)
         if has_base_handler_and_raise(p):
             # a BaseException-only error of an awaited child is not delivered to the body by convert_asynq_to_async
             return "base-exception-not-delivered-to-handler"
@@ -1447,9 +1452,6 @@ def signature(case, v):
         if "pval" in tags:
             # AsyncProxyDecorator.asyncio (unwrap_coroutine) awaits whatever the function returned unless it is a ConstFuture
             return "async-proxy-non-future-result-not-resolved"
-        if "gco" in tags:
-            # resolve_awaitables tests isinstance(x, collections.abc.Awaitable): False for a generator-based coroutine
-            return "generator-based-asyncio_fn-rejected-at-yield"
         if tags & set(OFUT_TAGS):
             # resolve_awaitables knows ConstFuture only: an ErrorFuture / a lazy Future at a yield is a TypeError under asyncio
             return "non-const-future-yield-rejected-by-asyncio"
@@ -2038,12 +2040,10 @@ class Harness(object):
 
     def make(self, c, p, gco=False):
         """child.asynq(args): an AsyncTask - or, in asyncio mode, a coroutine (`gco`: the generator object of a generator-based
-        asyncio_fn; such a call site never goes through asynq.async_call, whose `await fn.asyncio(..)` accepts the generator)"""
+        asyncio_fn); through asynq.async_call for labels % 5 == 3 - gco and pure-method call sites too (asyncio_call does
+        `await fn.asyncio(..)`: it accepts the generator, and a pure method has `.asyncio` since /repo fec982c)"""
         fn, args, kwargs = self.target(c, p, gco)
-        if c[2] % 5 == 3 and not gco and not is_pure_method(c):
-            # (a pure=True METHOD handed to asynq.async_call while the flag is on meets the same missing attribute as the root of
-            # finding pure-method-has-no-asyncio - asyncio_call does `fn.asyncio(..)` -: seen by hand; such a call site is always
-            # called directly, the finding is generated at the root only)
+        if c[2] % 5 == 3:
             return self.tracked(self.asynq.async_call.asynq(fn, *args, **kwargs), c[2])
         if c[0] == "pure":
             return self.tracked(fn(*args, **kwargs), c[2])
@@ -2083,13 +2083,13 @@ class Harness(object):
     def acall(self, c, p):
         """child.asyncio(args)"""
         fn, args, kwargs = self.target(c, p)
-        if c[2] % 5 == 3 and not is_pure_method(c):
+        if c[2] % 5 == 3:
             return self.tracked(self.asynq.async_call.asyncio(fn, *args, **kwargs), c[2])
         try:
             bound = fn.asyncio
         except AttributeError as e:
-            # the expression `fn.asyncio(args)` itself fails (a pure=True method: its binder has no such attribute): that is
-            # the outcome of "awaiting fn.asyncio(args)" - handed to the caller as a coroutine that raises it
+            # the expression `fn.asyncio(args)` itself fails (before /repo fec982c: a pure=True method, whose binder had no such
+            # attribute): that is the outcome of "awaiting fn.asyncio(args)" - handed to the caller as a coroutine that raises it
             async def failed(e=e):
                 raise e
             return failed()
@@ -2132,9 +2132,8 @@ class Harness(object):
             t = y[1]
             if not (isinstance(t, list) and t[0] == "task" and t[1][1] and t[1][0] in AFN_KINDS):
                 raise IllFormed("bad gco %r" % (y,))
-            # (whether the engine takes the object as an awaitable at all is what the engines - as they are - disagree on: the
-            # child has to be finished only if it has been STARTED, like the tasks inside a container subclass)
-            cond.append(t[1][2])
+            # (an ordinary child since /repo 6607af4: it has to be finished when the yield returns, like every task)
+            (cond if in_cond else labels).append(t[1][2])
             return self.make(t[1], t[2], gco=True)
         if tag == "tup":
             return tuple(self.build(x, labels, cond, in_cond) for x in y[1:])
